@@ -52,7 +52,8 @@ func newOtShapePlanner(tables *font.Font, props SegmentProperties) *otShapePlann
 	out.scriptFallbackMarkPositioning = fb
 
 	/* https://github.com/harfbuzz/harfbuzz/issues/1528 */
-	if _, isDefault := out.shaper.(complexShaperDefault); out.applyMorx && !isDefault {
+	// (the Zawgyi shaper is a complexShaperDefault with options : it is not "the default shaper")
+	if sh, isDefault := out.shaper.(complexShaperDefault); out.applyMorx && (!isDefault || sh != (complexShaperDefault{})) {
 		out.shaper = complexShaperDefault{dumb: true}
 	}
 	return &out
